@@ -140,6 +140,17 @@ PROPS = {
                    "thorough": "adds 2x2, size 3, preemption bound 3"},
         "assumptions": COMMON_ASSUME + ["threads are interleaved at visible operations only (sync/atomic, Mutex, Cond, channel, WaitGroup, time.Sleep, go); code between two visible operations of a thread is assumed not to race with other threads", "package context's own synchronisation is trusted: its operations are atomic steps", "sync.Pool (bufPool) is a LIFO free list; time.Sleep = 'time passes when nothing else can run'", "schedule counterexamples are reported from the engine's exploration (kinds assert/deadlock are engine-only for these properties: the native replay cannot force a schedule without instrumenting the diode sources)", "fewer than 2^64 ring positions are claimed in the life of a diode"],
     },
+    "C18": {
+        "groups": [{"name": "hlog", "tags": "verif", "run": "^VH_C18_",
+                    "quick": {"params": "ops=3"}, "thorough": {"params": "ops=5", "harness-timeout": 3000, "max-paths": 5000000}}],
+        "level": "model_checking",
+        "bounds": {
+            "accounting": "mutil.WrapWriter over the three capability sets (basic / +Flusher / +CloseNotifier+Hijacker+ReaderFrom); every sequence of 3 (thorough 5) operations among WriteHeader(symbolic code), Write(0..2 bytes), ReadFrom, Flush, with the underlying writer accepting a symbolic count n in [0,len] (ReadFrom: any n in [0,2^40)) and returning a symbolic error; Status()/BytesWritten() compared with a reference model after every operation; AccessHandler hands exactly those numbers to its callback. Precondition tee == nil (Tee is not reachable from package hlog).",
+            "isolation": "NewHandler + each of the 15 field handlers alone, all 15 together, and none; three requests (A, B, A) with distinct attribute values (two of them with a symbolic byte) through the same handler chain: every request gets its own logger, each event carries only its own request's values, serving never writes into the base logger's context buffer (engine write-set), the base logger still emits only its own context",
+            "outside": "goroutine-level interleaving inside handlers (nothing shared is written: ownership argument); net/http internals (Header.Get/Set = exact-key map access, URL.String = the URL's path, xid = opaque id, time.Now/Since stubbed)",
+        },
+        "assumptions": COMMON_ASSUME + ["net/http: only HandlerFunc.ServeHTTP, Request.Context and Request.WithContext are executed from their real SSA; Header.Get/Set, url.URL.String, xid.New/ID.String are stubs", "context.WithValue/Value executed from real SSA"],
+    },
     "C19": {
         "groups": [{"name": "user", "tags": "verif", "run": "^VH_C19_", "flags": {"witnesses": 400}}],
         "level": "other",
@@ -198,6 +209,11 @@ NOT_APPLICABLE = [
 ]
 
 MANIFEST_TEXT = {
+    "C18": {
+        "level_text": "Bounded model checking: the response-accounting proxy is run under symbolic call sequences with symbolic accepted counts against a reference model (fully claimed); request isolation is decided as freshness + write-set lemmas on the real NewHandler / field handlers with net/http reduced to stubs (reduced scope).",
+        "design_ref": "DESIGN.md §3 C18",
+        "level_note": "Isolation is sequentialised (requests alternate at request granularity); concurrency follows from 'nothing shared is written'. net/http is stubbed.",
+    },
     "C19": {
         "level_text": "Exhaustive execution of the combination space (mechanism x entry point x finalizer x hooks x wrapper depth) on the real skip-frame arithmetic with runtime.Caller modelled over the interpreter's frame stack; every path is cross-checked against the real runtime by native replay.",
         "design_ref": "DESIGN.md §3 C19",
